@@ -800,6 +800,7 @@ theorem strategyRet_needsStructure {s : Strategy} {r : Reply}
     cases ht : useCattrs t
     · simp [strategyRet, tyRet, ht, RetKind.needsStructure] at h
     · simpa [Strategy.usesStructure] using ht
+  | text => simp [strategyRet, RetKind.needsStructure] at h
   | union m => exact unionDispatch_needsStructure h
   | streamBytes => simp [strategyRet, RetKind.needsStructure] at h
   | streamNdjson => simp [strategyRet, RetKind.needsStructure] at h
@@ -862,6 +863,105 @@ theorem resolveStrategy_ndjson {rs : List Resp} {p : Resp} (hp : primaryA rs = s
     rfl
   unfold resolveStrategy
   simp only [hp, hemp, respStream_of_ndjson hnd, hbin, hev, hm, hnb, hj, if_true, if_false, Bool.false_eq_true]
+
+/-! ## text bodies (repaired F32b) -/
+
+theorem handlerMedia_mem {c : List Media} {m : Media} (h : handlerMedia c = some m) : m ∈ c := by
+  unfold handlerMedia at h
+  split at h
+  · next x hx => cases h; exact List.mem_of_find?_eq_some hx
+  · exact List.mem_of_mem_head? h
+
+theorem handlerMedia_of_ne_nil {c : List Media} (h : c ≠ []) : ∃ m, handlerMedia c = some m := by
+  unfold handlerMedia
+  split
+  · exact ⟨_, rfl⟩
+  · cases c with
+    | nil => exact absurd rfl h
+    | cons a _ => exact ⟨a, rfl⟩
+
+theorem dedupTy_all_seen {l seen : List PyTy} (h : ∀ y ∈ l, y ∈ seen) : dedupTy l seen = [] := by
+  induction l with
+  | nil => rfl
+  | cons a l ih =>
+    have ha : a ∈ seen := h a List.mem_cons_self
+    simp only [dedupTy, ha, if_true]
+    exact ih (fun y hy => h y (List.mem_cons_of_mem _ hy))
+
+theorem dedupTy_const {l : List PyTy} {t : PyTy} (hne : l ≠ []) (h : ∀ y ∈ l, y = t) : dedupTy l [] = [t] := by
+  cases l with
+  | nil => exact absurd rfl hne
+  | cons a l =>
+    have ha : a = t := h a List.mem_cons_self
+    subst ha
+    have : dedupTy l [a] = [] :=
+      dedupTy_all_seen (fun y hy => by rw [h y (List.mem_cons_of_mem _ hy)]; exact List.mem_singleton.mpr rfl)
+    simp [dedupTy, this]
+
+theorem isBinaryCt_text {mt : Str} (h : isTextCt mt = true) : isBinaryCt mt = false := by
+  unfold isTextCt startsWith at h
+  obtain ⟨rest, rfl⟩ := List.isPrefixOf_iff_prefix.mp h
+  simp [isBinaryCt, startsWith, List.isPrefixOf]
+
+theorem ctTy_text {m : Media} (h : isTextCt m.mt = true) (hs : m.shape = .string) : ctTy m = .str := by
+  unfold ctTy
+  rw [isBinaryCt_text h, h, hs]
+  rfl
+
+theorem isTextBody_str {c : List Media} (hne : c ≠ [])
+    (htx : c.all (fun m => isTextCt m.mt) = true) : isTextBody c .str = true := by
+  have hemp : c.isEmpty = false := by
+    cases c with
+    | nil => exact absurd rfl hne
+    | cons _ _ => rfl
+  unfold isTextBody
+  rw [hemp, htx]
+  rfl
+
+/-- A non-streaming primary response declared with `text/*` media types only, each a plain string, is returned as
+    `response.text` - whether it has one media type or several. -/
+theorem resolveStrategy_text {rs : List Resp} {p : Resp} (hp : primaryA rs = some p) (hne : p.content ≠ [])
+    (hns : respStream p = false)
+    (htx : p.content.all (fun m => isTextCt m.mt) = true)
+    (hsh : ∀ m ∈ p.content, m.shape = .string) : resolveStrategy rs = .text := by
+  have hemp : p.content.isEmpty = false := by
+    cases hc : p.content with
+    | nil => exact absurd hc hne
+    | cons _ _ => rfl
+  have hsingle : singleOf p.content .str = .text := by
+    unfold singleOf
+    rw [isTextBody_str hne htx]
+    rfl
+  unfold resolveStrategy
+  simp only [hp, hemp, hns, if_false, Bool.false_eq_true]
+  split
+  · -- several media types: all of them resolve to `str`
+    have hall : ∀ y ∈ (p.content.map (fun m => (m.mt, ctTy m))).map (·.2), y = PyTy.str := by
+      intro y hy
+      rw [List.map_map, List.mem_map] at hy
+      obtain ⟨m, hm, rfl⟩ := hy
+      exact ctTy_text (List.all_eq_true.mp htx m hm) (hsh m hm)
+    have hnn : (p.content.map (fun m => (m.mt, ctTy m))).map (·.2) ≠ [] := by
+      cases hc : p.content with
+      | nil => exact absurd hc hne
+      | cons _ _ => simp
+    rw [dedupTy_const hnn hall]
+    exact hsingle
+  · obtain ⟨m, hm⟩ := strategyMedia_of_ne_nil hne
+    rw [hm]
+    have : shapeTy m.shape = .str := by rw [hsh m (strategyMedia_mem hm)]; rfl
+    simp only [this]
+    exact hsingle
+
+/-- The arm of another 2xx response declared with `text/*` media types only, each a plain string: `response.text`. -/
+theorem secondaryRet_text {x : Resp} (hne : x.content ≠ [])
+    (htx : x.content.all (fun m => isTextCt m.mt) = true)
+    (hsh : ∀ m ∈ x.content, m.shape = .string) : secondaryRet x = .text := by
+  obtain ⟨m, hm⟩ := handlerMedia_of_ne_nil hne
+  unfold secondaryRet
+  rw [hm]
+  have : shapeTy m.shape = .str := by rw [hsh m (handlerMedia_mem hm)]; rfl
+  simp only [this, isTextBody_str hne htx, if_true]
 
 theorem select_retStrategy {rs : List Resp} {s : Nat} (h : selectAction rs s = .retStrategy) :
     (processedPrimary rs).isSome = true ∨ defaultAction rs = .retStrategy := by
